@@ -46,19 +46,20 @@ def render_arg(style, text):
     return "".join(("\\" + c) if c in SPECIAL else c for c in text)
 
 
-def known_class(args, pos):
+def known_class(args, pos, layer="L1c"):
     """Known-finding classes of C01 (mirrors Known_C01 in Properties/C01.v). args = [(style, text)],
-    pos = kind of position. Returns class name or None."""
+    pos = kind of position. Returns class name or None. Only the backslash-escaped style has any left:
+    the tokenizer drops the backslash and keeps no mark on the token, so later passes see plain text."""
     n = len(args)
     for i, (st, tx) in enumerate(args):
         last = i == n - 1
         if st == "esc":
-            if tx == "&" and last and pos == "plain":
-                return "esc-amp-last"
-            if tx[-1] in " \t" and last and pos == "plain":
-                return "esc-trailing-blank"
             if "$" in tx or "`" in tx or "*" in tx or "~" == tx[0] or "{" in tx:
                 return "esc-expanded"
+            if tx == "&" and last and pos == "plain":
+                return "esc-amp-last"
+            if layer == "L2" and tx[-1] in " \t" and last and pos in ("plain", "list"):
+                return "esc-trailing-blank"
     return None
 
 
@@ -263,6 +264,66 @@ def run(ctx, res):
                                 note="class %s is not listed in known_findings.txt" % kc)
         res.extra["l1c_failure_classes"] = {str(k): v for k, v in stats.items()}
         res.sample({"layer": "L1c", "input": lines[4321 % len(lines)], "impl": io[4321 % len(lines)], "model_plan": mo[4321 % len(lines)]})
+        # ---------- L2: argv of a helper through `cicada -c`
+        hp = os.path.join(ctx.helpers, "hp")
+        idx = list(range(len(cases)))
+        rng.shuffle(idx)
+        pick = idx[:(1500 if ctx.thorough else 250)]
+        from concurrent.futures import ThreadPoolExecutor
+
+        def one(ix):
+            args, pos = cases[ix]
+            line = hp + " @" + "".join(" " + render_arg(s_, t_) for s_, t_ in args)
+            if pos == "pipe":
+                line += " | " + hp + " @r"
+            elif pos == "list":
+                line += " && " + hp + " @ next"
+            d = tempfile.mkdtemp(prefix="w", dir=work)
+            tr = os.path.join(d, "trace")
+            env = dict(os.environ)
+            env.update({"VERIF_TRACE": tr, "HOME": d, "XDG_CONFIG_HOME": d, "PATH": "/usr/bin:/bin"})
+            try:
+                pr = subprocess.run([ctx.cicada, "-c", line], cwd=d, env=env, stdin=subprocess.DEVNULL,
+                                    stdout=subprocess.PIPE, stderr=subprocess.PIPE, timeout=20)
+                rc = pr.returncode
+            except subprocess.TimeoutExpired:
+                rc = "TIMEOUT"
+            recs = []
+            if os.path.exists(tr):
+                for l in open(tr):
+                    kv = dict(f.split("=", 1) for f in l.rstrip("\n").split("\t") if "=" in f)
+                    recs.append([C.dec(a) for a in kv.get("argv", "").split(",")])
+            files = sorted(os.listdir(d))
+            shutil.rmtree(d, ignore_errors=True)
+            return line, rc, recs, files
+
+        with ThreadPoolExecutor(max_workers=C.NCPU) as ex:
+            outs = list(ex.map(one, pick))
+        res.count("L2_cicada_c", len(pick))
+        for ix, (line, rc, recs, files) in zip(pick, outs):
+            args, pos = cases[ix]
+            want = [[hp, "@"] + [t for _, t in args]]
+            if pos == "pipe":
+                want.append([hp, "@r"])
+            elif pos == "list":
+                want.append([hp, "@", "next"])
+            ok = recs == want and rc == 0 and files in ([], ["trace"])
+            if ok:
+                continue
+            kc = known_class(args, pos, "L2")
+            if kc is None:
+                nv += 1
+                if nv <= 3:
+                    res.violate(kind="oracle", layer="L2", input=line, expected=repr(want), observed=repr((rc, recs, files)),
+                                failing_input=True, note="argv received by the program differs from the written arguments")
+            elif kc in known:
+                res.known(kc, "class=%s e.g. %s" % (kc, line[len(hp) - 2:]))
+            else:
+                nv += 1
+                if nv <= 3:
+                    res.violate(kind="oracle", layer="L2", input=line, expected=repr(want), observed=repr((rc, recs)),
+                                failing_input=True, note="class %s is not listed in known_findings.txt" % kc)
+        res.sample({"layer": "L2", "input": outs[0][0], "argv_seen": outs[0][2], "status": outs[0][1]})
     finally:
         os.chdir(cwd0)
         shutil.rmtree(work, ignore_errors=True)
